@@ -154,7 +154,11 @@ class Interp:
                 pass
         # a literal table (dict / tuple / list) of constants, module-level functions and lambdas, e.g. a dispatch table of kernels or of formulas
         def table_ok(n):
-            if isinstance(n, ast.Dict): return all(k is not None and isinstance(k, ast.Constant) for k in n.keys) and all(table_ok(v) for v in n.values)
+            if isinstance(n, ast.Dict):
+                key_ok = lambda k: isinstance(k, ast.Constant) or (isinstance(k, ast.Tuple) and all(isinstance(e, ast.Constant) for e in k.elts)) or \
+                    (isinstance(k, ast.UnaryOp) and isinstance(k.operand, ast.Constant))
+                return all(k is not None and key_ok(k) for k in n.keys) and all(table_ok(v) for v in n.values)
+            if isinstance(n, ast.UnaryOp) and isinstance(n.operand, ast.Constant): return True
             if isinstance(n, (ast.Tuple, ast.List)): return all(table_ok(e) for e in n.elts)
             if isinstance(n, ast.Constant): return True
             if isinstance(n, ast.Name): return n.id in g
